@@ -75,6 +75,7 @@ Definition prop_case (c : case) : bool :=
         && (if r_coinbase r
             (* a coinbase transaction creates value: no inputs, no fee, the rule is not consulted *)
             then match seen, b_fee_paid b with None, None => true | _, _ => false end
+                 && (b_expiry b =? r_height r) && match b_tin b with [] => true | _ => false end
             else fee_okb (r_rule r) b
                  && match seen with
                     | Some s => shape_eqb s (tx_shape b)   (* the rule was asked about the result's shape *)
